@@ -19,7 +19,7 @@ import finam as fm
 from .. import gen_coupling, harness, model_sched, sched_run, slots
 from ..findings import predicate
 from ..harness import H, T0, hrs
-from ..record import install
+from ..record import REC, RefusalLog, install
 from ..runner import Outcome, Property
 from .c17 import o_convert
 
@@ -30,8 +30,9 @@ def _f11(pid, spec, v):
     one registered end point; the producer evicts history that is requested later"""
     if pid not in ("C20", "C01") or not spec.get("fanout_pull"):
         return False
-    d = v.get("detail", "")
-    return v.get("kind") in ("pull_failed_in_update", "run_failed", "wsum_run_failed") and ("out of range" in d or "time point in the past" in d)
+    # the refused request lies inside what the producer had published (the data existed and was evicted),
+    # as observed by the recorder - not read from the wording of the exception
+    return v.get("kind") in ("pull_failed_in_update", "run_failed", "wsum_run_failed") and v.get("where") == "inside_published_range"
 
 
 class ValueProducer(fm.TimeComponent):
@@ -241,14 +242,14 @@ class C20(Property):
         rep = sched_run.run_spec(spec, listeners={"cb_get_data": on_cb, "update_entry": on_update_entry}, on_built=lambda b: rep_holder.__setitem__("b", b))
         out.count("pull_compositions")
         for f in rep.pull_failures:
-            out.viol("pull_failed_in_update", f"{f['comp']}.{f['input']} pull at {f['t']}h through pull-based component(s) failed: {f['exc']}: {f['msg']}", spec=spec, witness=f)
+            out.viol("pull_failed_in_update", f"{f['comp']}.{f['input']} pull at {f['t']}h through pull-based component(s) failed: {f['exc']}: {f['msg']}", spec=spec, witness=f, where=f.get("where"))
         for lk in rep.lacking_at_update:
             out.viol("updated_before_data_exists", f"update of {lk['comp']} while sources behind pull-based component lag: {lk['lacking']}", spec=spec)
         for u in rep.unjustified:
             out.viol("unjustified_update", f"update of {u['comp']} not justified: {u['reason']}", spec=spec)
         if rep.outcome != "ok":
             if not out.violations:
-                out.viol("run_failed", f"{rep.phase} ended with {rep.outcome}: {rep.message[:200]}", spec=spec, trace=rep.trace)
+                out.viol("run_failed", f"{rep.phase} ended with {rep.outcome}: {rep.message[:200]}", spec=spec, trace=rep.trace, where=rep.refusals.last())
             return
         # provider invoked for exactly the requested time, pulling its own inputs for that same time
         idx = 0
@@ -325,11 +326,16 @@ class C20(Property):
             prod.outputs[f"out{2 * k + 1}"] >> ws.inputs[names[k] + "_weight"]
         for c in cons:
             ws.outputs["WeightedSum"] >> c.inputs["In"]
+        install()
+        REC.reset()
+        refusals = RefusalLog()
         try:
             comp.run(start_time=T0, end_time=T0 + H(spec["end"]))
         except Exception as e:  # pylint: disable=broad-except
-            out.viol("wsum_run_failed", f"WeightedSum composition raised {type(e).__name__}: {e}", spec=spec)
+            out.viol("wsum_run_failed", f"WeightedSum composition raised {type(e).__name__}: {e}", spec=spec, where=refusals.last())
             return
+        finally:
+            REC.reset()
         out.count("wsum_compositions")
         for cname, series in received.items():
             for (t, got, units) in series:
